@@ -6,7 +6,9 @@ namespace verif {
 
 enum Kind : int { K_LOAD = 0, K_STORE = 1, K_RMW = 2, K_SPIN = 3, K_LOCK = 4, K_UNLOCK = 5, K_CVWAIT = 6,
                   K_CVNOTIFY = 7, K_FENCE = 8, K_YIELD = 9 };
-enum Mode : int { M_PASS = 0, M_JITTER = 1, M_CTL = 2 };
+enum Mode : int { M_PASS = 0, M_JITTER = 1, M_CTL = 2, M_SERIAL = 3 };
+// M_SERIAL: real concurrency, but every interposed operation is executed and logged under one global
+// lock, so the recorded operation stream is a total order consistent with the execution (C06).
 
 // scheduling point *before* a synchronisation operation of the code under test
 void point(const void* addr, int kind, int mo);
@@ -37,6 +39,24 @@ Outcome last();
 const unsigned char* schedule(long* len);
 // called (in the failing thread) before the process exits on a proven deadlock / step limit
 void on_abort(void (*cb)(const char* why));
+// RAII bracket around one interposed operation (prelude wrappers)
+struct OpScope {
+  bool held;
+  bool write;
+  const void* addr;
+  long idx;
+  OpScope(const void* a, int kind, int mo, bool isWrite);
+  ~OpScope();
+  void failed(int failure_mo);   // a compare-exchange that failed is a load with the failure order
+};
+// harness-declared plain (non-atomic) access, logged into the same stream
+void plain(int var, bool isWrite);
+// serialized stream access (M_SERIAL and M_CTL): records since the last drain
+struct OpRec { int tid; const void* addr; short kind; short mo; };
+long drain(OpRec* buf, long cap);
+void stream_on(bool on);
+int thread_index();   // dense id of the calling thread in the stream
+
 // optional operation stream (C06): every interposed operation of threads inside a region
 typedef void (*OpLogger)(int tid, const void* addr, int kind, int mo);
 void set_op_logger(OpLogger);
